@@ -458,7 +458,7 @@ impl Pow<Self> for LazyBigint {
     fn pow(self, rhs: Self) -> Self::Output {
         match (self, rhs) {
             (Self::Short(s1), Self::Short(s2)) => {
-                s1.checked_pow(s2.try_into().unwrap()).map_or_else(
+                u32::try_from(s2).ok().and_then(|e| s1.checked_pow(e)).map_or_else(
                     || Self::Long(BigInt::from(s1).pow(BigUint::try_from(s2).unwrap())),
                     Self::Short,
                 )
